@@ -542,7 +542,7 @@ static std::string printable(const std::string& s, size_t maxn)
 // one case
 // ------------------------------------------------------------------------------------------------------------
 static int NB(bool thorough) { return thorough ? 16 : 8; }
-static int INST(bool thorough) { return thorough ? 4 : 1; }
+static int INST(bool thorough) { return thorough ? 6 : 1; }
 
 static bool buildSeed(const SeedKind& k, uint64_t seed, long fileIdx, bool thorough, std::string& text)
 {
